@@ -687,8 +687,8 @@ def shapes_for(tier):
     """[(prec, exp, pos, neg)] - pos/neg Fractions or +-INF."""
     q = Fraction
     if tier == 'thorough':
-        precs, exps = [1, 2, 3, 4, INF], [-3, -2, -1, 0, 1, 2]
-        bounds = [(q(3), q(-3)), (q(4), q(0)), (q(0), q(-3)), (q(3, 4), q(-3, 2)), (q(6), q(-1)), (q(1), q(-4)), (q(5, 2), q(-5, 2)), (q(8), q(-8))]
+        precs, exps = [1, 2, 3, 4, INF], [-2, -1, 0, 1, 2]
+        bounds = [(q(3), q(-3)), (q(4), q(0)), (q(0), q(-3)), (q(3, 4), q(-3, 2)), (q(6), q(-1)), (q(5, 2), q(-5, 2))]
     else:
         precs, exps = [1, 2, 3, INF], [-2, -1, 0, 1]
         bounds = [(q(3), q(-3)), (q(4), q(0)), (q(3, 4), q(-3, 2))]
